@@ -157,8 +157,22 @@ def gen_plan(seed, cfg):
             continue
         if r < 0.06:
             history.append({"kind": "cache_clear"})
+            if rng.random() < 0.5:
+                history.append({"kind": "gc"})
+            continue
+        if r < 0.08:
+            history.append({"kind": "gc"})
             continue
         history.append(_concretise(rng, rng.choice(base)))
+    if rng.random() < 0.25:
+        tms = [b for b in base if b["kind"] == "tm"]
+        if tms:
+            b = dict(rng.choice(tms))
+            if b["backend"] != "cffi":
+                b["backend"] = "cffi"
+                b["key"] = f"tm|{b['prob']}|cffi"
+                base.append(b)
+            history.insert(0, _concretise(rng, b))
     return {"engine": "P", "run_seed": seed, "hashseed": seed % 8,
             "child_hashseed": rng.randrange(1, 2 ** 32), "base": base, "history": history}
 
@@ -282,6 +296,9 @@ def run_plan(plan, cfg=None):
             state = "cleared"
             seen_keys = set()
             prob_of_first = {}
+            continue
+        if k == "gc":
+            stats["gc_collect"] = stats.get("gc_collect", 0) + 1
             continue
         if k == "evict":
             stats["eviction_flood"] += 1
